@@ -145,6 +145,20 @@ func FP(parts ...string) string {
 	return hex.EncodeToString(h[:8])
 }
 
+var procDirs = map[string]string{}
+
+// ProcDir returns one scratch directory per process and tag (scenario bodies wipe and reuse it for every execution).
+func ProcDir(tag string) string {
+	if d, ok := procDirs[tag]; ok {
+		os.RemoveAll(d)
+		os.MkdirAll(d, 0755)
+		return d
+	}
+	d := Scratch(tag)
+	procDirs[tag] = d
+	return d
+}
+
 // Scratch returns a fresh scratch directory on tmpfs.
 func Scratch(tag string) string {
 	base := os.Getenv("VERIF_SCRATCH")
@@ -377,7 +391,10 @@ func runWorker(exe, id, tier, unit, out string, deadline time.Time, seed int) *R
 		os.MkdirAll(tmpd, 0755)
 		defer os.RemoveAll(tmpd)
 		// private TMPDIR on tmpfs: kevo serialises bloom filters through temp files and a shared on-disk /tmp serialises the workers
-		cmd.Env = append(os.Environ(), "GOMAXPROCS=1", "GOGC=400", "TMPDIR="+tmpd)
+		scr := out + ".scratch"
+		os.MkdirAll(scr, 0755)
+		defer os.RemoveAll(scr)
+		cmd.Env = append(os.Environ(), "GOMAXPROCS=1", "GOGC=400", "TMPDIR="+tmpd, "VERIF_SCRATCH="+scr)
 		var stderr strings.Builder
 		cmd.Stderr = &stderr
 		cmd.SysProcAttr = &syscall.SysProcAttr{Setpgid: true}
